@@ -201,8 +201,11 @@ namespace c11
       // extrude: angles in revolutions (file unit), the chart takes radians
       auto rev = [&]() { int q = t.pick({3, 2, 3}); if(q == 0) return 0.0; if(q == 1) return double(t.range(-7, 7)) / 16.0; double x = gen_real(t, 2); return x - std::floor(x) - 0.5; };
       double ox = 0, oy = 0, fx = 0, fy = 0, fz = 0, ay = 0, ap = 0, ar = 0;
-      if(t.flag(1, 2)) { ox = gen_real(t, vcls); oy = gen_real(t, vcls); }
-      if(t.flag(1, 2)) { fx = gen_real(t, vcls); fy = gen_real(t, vcls); fz = gen_real(t, vcls); }
+      // origin/offset: magnitudes 0 or >= 1e-3 (DESIGN 2.11).  Domain fact (false alarm of the thorough tier fixed): the writer
+      // treats an origin/offset with |v|^2 <= eps^0.7 (|v| < 3.3e-6) as "not given"; the wide value class produced 1.4e-6
+      const int ecls = std::min(vcls, 2);
+      if(t.flag(1, 2)) { ox = gen_real(t, ecls); oy = gen_real(t, ecls); }
+      if(t.flag(1, 2)) { fx = gen_real(t, ecls); fy = gen_real(t, ecls); fz = gen_real(t, ecls); }
       if(t.flag(1, 2)) { ay = rev(); ap = rev() / 2.0; ar = rev(); }   // pitch in [-1/4, 1/4] revolutions (range of the yaw-pitch-roll representation)
       const double tp = 2.0 * Math::pi<double>();
       J ang = J::arr(); ang.add(ay); ang.add(ap); ang.add(ar); d.set("angles_rev", ang);
@@ -363,7 +366,16 @@ namespace c11
       {
         const MeshFile* f = fl[(size_t)t.sized(0, (int)fl.size() - 1, 3)]; d.set("source", "file:" + f->name); c.label(src == 4 ? "src:chart-file" : "src:file"); from_file = true;
         std::string txt; if(!vf::read_file(mesh_dir() + f->name, txt)) throw vf::Discard{"cannot read " + f->name};
-        parse_text<M>(txt, x);   // shipped files are valid input by definition; a failure here is a finding of its own
+        // shipped files are valid input by definition; a failure here is a finding of its own.  The screws_2d_mesh_* files keep
+        // their charts in a companion file and are read as two streams, the way navier_stokes_screws-app does it (domain fact:
+        // read alone they end in MeshNodeLinkerError "Chart 'screw:i' not found" - first alarm of the thorough tier)
+        if(f->name.rfind("screws_2d_mesh", 0) == 0)
+        {
+          std::string ctxt, cname = f->name.find("smaller") != std::string::npos ? "screws_2d_chart_bezier_24_28_smaller.xml" : "screws_2d_chart_bezier_24_28.xml";
+          if(!vf::read_file(mesh_dir() + cname, ctxt)) throw vf::Discard{"cannot read " + cname};
+          d.set("companion", cname); parse_texts<M>({ctxt, txt}, x);
+        }
+        else parse_text<M>(txt, x);
         int ref = (src == 2 && f->size < 6000 && !o.small) ? t.pick({3, 1}) : 0; d.set("refine", ref);
         for(int r = 0; r < ref; ++r) { auto fine = x.node->refine_unique(AdaptMode::chart); x.node = std::move(fine); c.label("refined"); }
       }
